@@ -173,6 +173,7 @@ CTYPES = (
     ("video", "mp4", {"codecs": "avc1.42E01E, mp4a.40.2"}),
     ("text", "csv", {"delimiter": ",", "header": "x;y=z"}),
     ("text", "x-log", {"charset": "utf8", "source": "C:\\temp\\run.log", "title": 'the "big" dump'}),
+    ("text", "plain", {"charset": "rot13"}),      # a codec Python knows, but not one that decodes bytes to text
 )
 
 
